@@ -3,7 +3,8 @@
    (AmqpModel.v) is tied to pkg/extensions/amqp by the correspondence check of tools/props/C05.py
    and, for the signature table, by the translator output gen/AmqpSigs.v. *)
 Require Import V.Base.Prelude V.Amqp.AmqpTypes V.Amqp.AmqpModel V.Amqp.AmqpSpec.
-Require Import V.Amqp.AmqpProofs V.Amqp.AmqpC01 V.Amqp.AmqpFrames V.Amqp.AmqpArgs V.Amqp.AmqpMethods V.Amqp.AmqpReport V.Amqp.AmqpStepReport V.Amqp.AmqpSigsTie.
+Require Import V.Amqp.AmqpProofs V.Amqp.AmqpC01 V.Amqp.AmqpFrames V.Amqp.AmqpArgs V.Amqp.AmqpMethods V.Amqp.AmqpReport V.Amqp.AmqpStepReport V.Amqp.AmqpOrder V.Amqp.AmqpSigsTie.
+From Coq Require Import Permutation.
 Local Open Scope N_scope.
 
 (* every field value the specification's encoder can write (all 14 types, nested to any depth)
@@ -54,10 +55,14 @@ Proof. exact read_frame_roundtrip. Qed.
    DESIGN.md 5.C05): client-initiated requests with distinct pairing keys, no handshake methods,
    every content method followed on its direction, heartbeats apart, by its header and exactly
    one body frame of 1..512 bytes; any number of channels, unsupported methods, heartbeats and
-   the protocol header in between - both Dissect calls (client half first, as the suite drives
-   them) end cleanly and the emitted items are exactly `AmqpSpec.spec_report`, the report written
-   from the property: one item per publish / deliver with its arguments, properties and body and
-   an empty response, one item per reply paired with the request of its channel.
+   the protocol header in between - both Dissect calls end cleanly and the emitted items are exactly
+   `AmqpSpec.spec_report`, the report written from the property: one item per publish / deliver
+   with its arguments, properties and body and an empty response, one item per reply paired with
+   the request of its channel.  The property is about the conversation, not about the order in
+   which the tap reads its two halves (in production they run concurrently).  C05_report is the
+   client half first (the order in which the suite drives them): the items come out in the order
+   of spec_report.  C05_report_server_first below is the server half first: the same items come
+   out in another order.  C05_report_any_order: either way, the same items.
    Outside normal form the recorded findings apply (known/amqp.json); there C05_frames below
    still says that every frame is decoded exactly and handled in order. *)
 Theorem C05_report : forall cfs sfs, Forall wf_frame cfs -> Forall wf_frame sfs -> normal cfs sfs = true ->
@@ -75,6 +80,42 @@ Theorem C05_frames : forall cfs sfs ct st_, Forall wf_frame cfs -> Forall wf_fra
    snd (run_frames false sfs (init_dstate, snd (run_frames true cfs (init_dstate, init_mstate))))).
 Proof. exact report_frames. Qed.
 
+(* The SERVER half dissected first, the client half second.  Both end cleanly; the items are, as
+   a multiset, exactly those of `spec_report`; and their order is `spec_report_server_first`
+   (AmqpSpec.v, written from the property): first the deliveries, in the order of the server
+   direction - they are emitted while the server half is read; every reply waits in the matcher,
+   nothing is emitted for it yet - then, in the order of the client direction, every request that
+   has a reply (emitted when the client half reaches the request; the request is the client's
+   method and the response the server's, as in the other order) and every publish. *)
+Theorem C05_report_server_first : forall cfs sfs, Forall wf_frame cfs -> Forall wf_frame sfs -> normal cfs sfs = true ->
+  let '(oc, os, ms) := dissect_both false {| sdata := enc_frames cfs; stail := TEof |} {| sdata := enc_frames sfs; stail := TEof |} in
+  oc = OEof /\ os = OEof /\ Permutation (map item_view (items ms)) (spec_report cfs sfs)
+  /\ map item_view (items ms) = spec_report_server_first cfs sfs.
+Proof. exact C05_server_first_holds. Qed.
+
+(* whichever half is dissected first: clean ends and the items of `spec_report`, as a multiset *)
+Theorem C05_report_any_order : forall b cfs sfs, Forall wf_frame cfs -> Forall wf_frame sfs -> normal cfs sfs = true ->
+  let '(oc, os, ms) := dissect_both b {| sdata := enc_frames cfs; stail := TEof |} {| sdata := enc_frames sfs; stail := TEof |} in
+  oc = OEof /\ os = OEof /\ Permutation (map item_view (items ms)) (spec_report cfs sfs).
+Proof. exact C05_any_order_holds. Qed.
+
+(* about the two specifications alone: in normal form they list the same items *)
+Theorem C05_reports_same_items : forall cfs sfs, normal cfs sfs = true ->
+  Permutation (spec_report_server_first cfs sfs) (spec_report cfs sfs).
+Proof. exact spec_report_orders. Qed.
+
+(* the ConnectionInfo of an item is never swapped, for any two streams (well-formed or not) in
+   either order: the half whose reader completes a pair (the server's when the client half is
+   read first, the client's when the server half is read first) does not show in the item *)
+Theorem C05_never_swapped : forall b c s, Forall (fun it => it_swapped it = false) (items (snd (dissect_both b c s))).
+Proof. exact both_unswapped. Qed.
+
+(* `C05_frames` for either order *)
+Theorem C05_frames_any_order : forall b cfs sfs ct st_, Forall wf_frame cfs -> Forall wf_frame sfs ->
+  dissect_both b {| sdata := enc_frames cfs; stail := ct |} {| sdata := enc_frames sfs; stail := st_ |} =
+  (end_outcome ct, end_outcome st_, run_both b cfs sfs).
+Proof. exact report_frames_any. Qed.
+
 (* normal form is inhabited by conversations with every kind of item *)
 Example C05_normal_example :
   let props := [Some (AShortStr [x74]); None; None; None; None; None; None; None; None; None; None; None; None; None] in
@@ -86,6 +127,32 @@ Example C05_normal_example :
               FrHeader 3 60 0 1 (flags_val props 15) props; FrBody 3 [x62]] in
   normal cfs sfs = true /\ length (spec_report cfs sfs) = 3%nat.
 Proof. vm_compute. split; reflexivity. Qed.
+
+(* the hypotheses of the three report theorems are met by a conversation with a publish, a
+   reply pair (queue.declare / declare-ok) and a delivery; the two orders give the same three
+   items in different orders (shown by the method ids of the requests) *)
+Example C05_orders_example :
+  let props := [Some (AShortStr [x74]); None; None; None; None; None; None; None; None; None; None; None; None; None] in
+  let cfs := [FrProto; FrMethod 1 50 10 [AShort 0; AShortStr [x71]; ABit false; ABit true; ABit false; ABit false; ABit false; ATable []];
+              FrMethod 2 60 40 [AShort 0; AShortStr [x65]; AShortStr []; ABit true; ABit false]; FrHeartbeat 0;
+              FrHeader 2 60 0 1 (flags_val props 15) props; FrBody 2 [x61]; FrMethod 1 60 80 [ALongLong 1; ABit false]] in
+  let sfs := [FrMethod 1 50 11 [AShortStr [x71]; ALong 0; ALong 0];
+              FrMethod 3 60 60 [AShortStr []; ALongLong 7; ABit false; AShortStr []; AShortStr []];
+              FrHeader 3 60 0 1 (flags_val props 15) props; FrBody 3 [x62]] in
+  let c := {| sdata := enc_frames cfs; stail := TEof |} in
+  let s := {| sdata := enc_frames sfs; stail := TEof |} in
+  (Forall wf_frame cfs /\ Forall wf_frame sfs /\ normal cfs sfs = true) /\
+  map item_view (items (snd (dissect_both true c s))) = spec_report cfs sfs /\
+  map item_view (items (snd (dissect_both false c s))) = spec_report_server_first cfs sfs /\
+  map (fun it => fst (fst it)) (spec_report cfs sfs) = [60040; 50010; 60060] /\
+  map (fun it => fst (fst it)) (spec_report_server_first cfs sfs) = [60060; 50010; 60040].
+Proof.
+  cbv zeta. split; [|vm_compute; repeat split; reflexivity].
+  split; [|split; [|vm_compute; reflexivity]];
+    (repeat constructor; cbn; try lia; try (unfold Blen, max_frame, max_str; cbn; lia);
+     try (eexists; split; [reflexivity|]; split; repeat constructor; cbn; unfold Blen; cbn; lia);
+     unfold wf_table, wf_entries, time_ok, in_s, max_str, Blen; cbn; repeat constructor; cbn; lia).
+Qed.
 
 (* the hypotheses are satisfiable: a publish with content on channel 1 *)
 Example C05_wf_example :
